@@ -17,6 +17,6 @@ if ! git -C "$WT" apply "$PATCH" 2>"$VR/apply.err"; then
   echo "APPLY-FAILED $(head -1 "$VR/apply.err")"; exit 3
 fi
 cp "$ROOT/known_findings.json" "$VR/"
-"$ROOT/bin/verifchk" -property ALL -repo "$WT" -root "$VR" > "$VR/all.out" 2>&1 || true
+"$ROOT/bin/verifchk" -property "${PROP:-ALL}" -repo "$WT" -root "$VR" > "$VR/all.out" 2>&1 || true
 grep "^VIOLATION" "$VR/all.out" | sed 's/ replay=.*//' | tr '\n' ' '; echo
 grep "^FINDING\|^UNDECIDED" "$VR/all.out" | sed "s/ at .*//" | cut -c1-200
